@@ -35,6 +35,8 @@ type Runner struct {
 
 	// oracle state
 	uploads      map[string]map[string]bool // content id -> instance names with a successful upload
+	corruptMode  string                     // how the corrupting read of the current corrupt operation consumes its data
+	failedUps    map[string]map[string]bool // content id -> instance names with an upload that was answered with an error
 	acVersions   map[int]map[string]bool    // object -> successfully uploaded values
 	touched      map[int]int64              // object -> NewBlock count at the start of its last successful touch
 	touchedClean map[int]bool               // ... and whether that call allocated no block
@@ -199,6 +201,52 @@ func (r *Runner) visibleAllowed(obj int) bool {
 	}
 }
 
+// failedUploadAdmissible tells whether an upload of this object's content that FAILED was made under an instance name
+// from which the object would be visible: if the object is visible without any admissible successful upload, that
+// failed upload is what made it visible (C01: an upload that fails never becomes visible).
+func (r *Runner) failedUploadAdmissible(obj int) bool {
+	if r.st.Cfg.Kind == "ac" {
+		return false
+	}
+	inst := r.objs[obj].Instance
+	for u := range r.failedUps[r.contentID(obj)] {
+		switch r.st.Cfg.Kind {
+		case "flat":
+			return true
+		case "flati":
+			if u == inst {
+				return true
+			}
+		default:
+			if componentPrefix(u, inst) {
+				return true
+			}
+		}
+	}
+	return false
+}
+
+// invisible reports an object that is visible although visibleAllowed says it must not be.
+func (r *Runner) invisible(obj int, verb, detail string) {
+	prop := "C01"
+	if r.hier() {
+		prop = "C10"
+	}
+	r.oracle(prop, "an object is "+verb+" although no successful upload under an admissible instance name exists", detail)
+	if r.hier() && r.failedUploadAdmissible(obj) {
+		r.oracle("C01", "an object is "+verb+" under an instance name where only a failed upload of it was made", detail)
+	}
+	// an upload still in flight may be what made it visible; judged when that upload ends
+	for _, op := range r.pending {
+		if op.kind == "put" && r.st.Cfg.Kind != "ac" && r.contentID(op.obj) == r.contentID(obj) && op.sawVisible == "" {
+			u, inst := r.objs[op.obj].Instance, r.objs[obj].Instance
+			if r.st.Cfg.Kind == "flat" || (r.st.Cfg.Kind == "flati" && u == inst) || (r.hier() && componentPrefix(u, inst)) {
+				op.sawVisible = verb + ": " + detail
+			}
+		}
+	}
+}
+
 // ---------------------------------------------------------------- put
 
 func (r *Runner) afterPutStart(op *pendingOp, size int, e event) {
@@ -311,6 +359,20 @@ func (r *Runner) finishPut(op *pendingOp, reply string) {
 				fmt.Sprintf("put of object %d", op.obj))
 		}
 	}
+	if reply != "ok" && op.sawVisible != "" {
+		r.oracle("C01", "an upload that failed was visible to reads or existence checks while it was in flight",
+			fmt.Sprintf("put of object %d answered %q; before that: %s", op.obj, reply, op.sawVisible))
+	}
+	if reply != "ok" && r.st.Cfg.Kind != "ac" {
+		id := r.contentID(op.obj)
+		if r.failedUps == nil {
+			r.failedUps = map[string]map[string]bool{}
+		}
+		if r.failedUps[id] == nil {
+			r.failedUps[id] = map[string]bool{}
+		}
+		r.failedUps[id][r.objs[op.obj].Instance] = true
+	}
 	if reply == "ok" {
 		if op.ioFailed {
 			r.oracle("C01", "an upload whose device write failed was acknowledged", fmt.Sprintf("put of object %d", op.obj))
@@ -355,12 +417,7 @@ func (r *Runner) checkData(obj int, data []byte, what string) {
 		r.oracle("C01", "a read returned bytes that differ from the uploaded object", fmt.Sprintf("%s of object %d: got %x want %x", what, obj, data, r.Content(obj)))
 	}
 	if !r.visibleAllowed(obj) {
-		prop := "C01"
-		if r.hier() {
-			prop = "C10"
-		}
-		r.oracle(prop, "an object is visible although no successful upload under an admissible instance name exists",
-			fmt.Sprintf("%s of object %d (instance %q)", what, obj, r.objs[obj].Instance))
+		r.invisible(obj, "visible", fmt.Sprintf("%s of object %d (instance %q)", what, obj, r.objs[obj].Instance))
 	}
 }
 
@@ -500,6 +557,26 @@ func (r *Runner) get(obj int, mode string, hand ...*handover) {
 		}
 	} else {
 		kind, data = consumeMode(r.st.BA.Get(context.Background(), r.Digest(obj)), mode, int(r.Digest(obj).GetSizeBytes()))
+	}
+	if strings.HasPrefix(kind, "partial ") {
+		// a range of the object was read: judge the bytes here, then treat it like a read of the whole object
+		off, _ := strconv.Atoi(strings.TrimPrefix(kind, "partial "))
+		want := r.Content(obj)
+		if r.st.Cfg.Kind == "ac" {
+			want = nil
+			for v := range r.acVersions[obj] {
+				if off+len(data) <= len(v) && bytes.Equal([]byte(v)[off:off+len(data)], data) {
+					want = []byte(v)
+				}
+			}
+		}
+		if want == nil || off+len(data) > len(want) || !bytes.Equal(want[off:off+len(data)], data) {
+			r.oracle("C01", "a read of a range returned bytes that differ from that range of the uploaded object",
+				fmt.Sprintf("Get of object %d: ReadAt at %d returned %x", obj, off, data))
+			kind, data = "data", append([]byte{}, data...)
+		} else {
+			kind, data = "data", want
+		}
 	}
 	if r.ioFired {
 		// a device read or write failed during this read: no data may be served; a refresh in progress is abandoned
@@ -740,12 +817,7 @@ func (r *Runner) findMissing(objs []int) {
 				// reported present: every object with this digest that the caller named must be legitimately visible
 				for _, o2 := range objs {
 					if r.Digest(o2) == d && !r.visibleAllowed(o2) {
-						prop := "C01"
-						if r.hier() {
-							prop = "C10"
-						}
-						r.oracle(prop, "an object is reported present although no successful upload under an admissible instance name exists",
-							fmt.Sprintf("FindMissing: object %d (instance %q)", o2, r.objs[o2].Instance))
+						r.invisible(o2, "reported present", fmt.Sprintf("FindMissing: object %d (instance %q)", o2, r.objs[o2].Instance))
 					}
 				}
 				r.noteTouch(o, newsAtStart, discardsAtStart)
@@ -994,6 +1066,10 @@ func RunCase(model *hx.Model, dr *discardReader, name string, script []string) (
 			r.ioKind = ""
 			if okObj(n(1)) {
 				r.drainComposites()
+				r.corruptMode = "s"
+				if len(w) > 2 {
+					r.corruptMode = w[2]
+				}
 				r.corrupt(n(1))
 			}
 		case "comp": // comp <op> <parent> <childIdx>
@@ -1107,6 +1183,20 @@ func (r *Runner) newestLocation(obj int) (int64, bool) {
 }
 
 // corruptHier: a read of obj from a hierarchical store during which the medium returns a flipped byte.
+// corruptingRead is the read during which the medium returns a flipped byte, consumed in the way the script chose
+// (every way of consuming the data must fail with INTERNAL, also one that asks for a part the flipped byte is not in).
+func (r *Runner) corruptingRead(obj int) string {
+	mode := r.corruptMode
+	if !strings.Contains("srcwaq", mode) || len(mode) != 1 {
+		mode = "s"
+	}
+	kind, _ := consumeMode(r.st.BA.Get(context.Background(), r.Digest(obj)), mode, int(r.Digest(obj).GetSizeBytes()))
+	if strings.HasPrefix(kind, "partial") {
+		kind = "data"
+	}
+	return kind
+}
+
 func (r *Runner) corruptHier(obj int) {
 	if !r.storedUnderPrefix(obj) {
 		return
@@ -1121,7 +1211,7 @@ func (r *Runner) corruptHier(obj int) {
 	r.nextOp++
 	reads := r.st.Dev.Reads
 	r.st.Dev.CorruptReads = 1
-	kind, _ := consume(r.st.BA.Get(context.Background(), r.Digest(obj)))
+	kind := r.corruptingRead(obj)
 	touched := r.st.Dev.CorruptReads == 0 && r.st.Dev.Reads > reads
 	r.st.Dev.CorruptReads = 0
 	ck, lks := r.hierKeys(obj)
@@ -1179,7 +1269,7 @@ func (r *Runner) corrupt(obj int) {
 	id := r.nextOp
 	r.nextOp++
 	r.st.Dev.CorruptReads = 1
-	kind, _ := consume(r.st.BA.Get(context.Background(), r.Digest(obj)))
+	kind := r.corruptingRead(obj)
 	r.st.Dev.CorruptReads = 0
 	k := r.flatKey(obj)
 	if kind == "not-found" || kind == "err unavailable" {
